@@ -4,3 +4,4 @@ import Proofs.C05
 #print axioms PV.Proofs.C05.C05_monotone
 #print axioms PV.Proofs.C05.C05_result_score
 #print axioms PV.Proofs.C05.build_keeps_kt_start
+#print axioms PV.Proofs.C05.not_positive_temperature_is_hill_climb
